@@ -488,7 +488,7 @@ func backward(v ssa.Value, followCall func(*ssa.Call) bool, direct bool) map[ssa
 		case *ssa.Range:
 			visit(t.X)
 		case *ssa.Call:
-			if b, ok := t.Call.Value.(*ssa.Builtin); ok && (b.Name() == "append" || b.Name() == "min" || b.Name() == "max") {
+			if b, ok := t.Call.Value.(*ssa.Builtin); ok && (b.Name() == "append" || b.Name() == "min" || b.Name() == "max" || b.Name() == "len" || b.Name() == "cap") {
 				for _, a := range t.Call.Args {
 					visit(a)
 				}
